@@ -25,7 +25,9 @@ type n2case struct {
 type plmnImsi struct{ imsi, mcc, mnc string }
 
 var n2imsis = []plmnImsi{{"001010000000001", "001", "01"}, {"00101000000001", "001", "01"}, {"208930000000009", "208", "93"}, {"001001000000001", "001", "001"},
-	{"310410123456789", "310", "410"}, {"999999999999990", "999", "999"}, {"001010000099998", "001", "01"}}
+	{"310410123456789", "310", "410"}, {"999999999999990", "999", "999"}, {"001010000099998", "001", "01"},
+	// the second UE's identity needs a carry through one / several 9s
+	{"001010000000099", "001", "01"}, {"001010099999999", "001", "01"}}
 
 // n2config picks the configuration dimensions (C01/C18) from the chooser.
 func n2config(c *explore.Chooser) (n2.EmuConfig, refamf.Config) {
